@@ -340,20 +340,8 @@ func c12Check(c c12Case) [][2]string {
 		add("C12:panic", "handle panicked: %v", pv)
 		return out
 	}
-	var logged, counted []string
-	for _, ln := range strings.Split(logb.String(), "\n") {
-		if i := strings.Index(ln, "inconsistency "); i >= 0 && strings.Contains(ln, ": \"") {
-			// eth0: inconsistency 0: "field": (details) want...
-			rest := ln[strings.Index(ln, ": \"")+3:]
-			field := rest[:strings.Index(rest, "\"")]
-			details := ""
-			if j := strings.Index(rest, "\": ("); j >= 0 {
-				d := rest[j+4:]
-				details = d[:strings.Index(d, ") ")]
-			}
-			logged = append(logged, field+"|"+details)
-		}
-	}
+	var counted []string
+	logged := c12LoggedProblems(strings.Split(logb.String(), "\n"), "", want)
 	for k, v := range mem.Series()[advInconsistencies].Samples {
 		// interface=eth0,details=...,field=...
 		var field, details string
@@ -553,4 +541,62 @@ func TestVerifC12(t *testing.T) {
 			}
 		}
 	}
+}
+
+// c12Fields are the labels under which inconsistencies are reported.
+var c12Fields = []string{"hop_limit", "managed_configuration", "other_configuration", "reachable_time", "retransmit_timer", "mtu",
+	"prefix_information_preferred_lifetime", "prefix_information_valid_lifetime", "route_information_lifetime",
+	"rdnss_count", "rdnss_lifetime", "rdnss_servers", "dnssl_count", "dnssl_lifetime", "dnssl_domain_names", "captive_portal"}
+
+// c12LoggedProblems reads the log the way an operator does, without depending on its
+// layout: a line (of the interface, when prefix is given) that names exactly one field
+// label reports that inconsistency; its details are the expected detail string (a prefix
+// in CIDR form) it contains, if any. Lines naming no field (the summary line) are ignored.
+func c12LoggedProblems(lines []string, prefix string, want []string) []string {
+	details := map[string]bool{}
+	for _, w := range want {
+		if d := w[strings.Index(w, "|")+1:]; d != "" {
+			details[d] = true
+		}
+	}
+	for _, d := range []string{"2001:db8:1::/64", "2001:db8:2::/64", "2001:db8:1::/48", "2001:db8:f000::/48", "2001:db8:e000::/48", "2001:db8:f000::/56"} {
+		details[d] = true
+	}
+	isWord := func(b byte) bool { return b == '_' || (b >= 'a' && b <= 'z') || (b >= '0' && b <= '9') }
+	var out []string
+	for _, ln := range lines {
+		if prefix != "" && !strings.HasPrefix(ln, prefix) {
+			continue
+		}
+		var found []string
+		for _, f := range c12Fields {
+			for i := strings.Index(ln, f); i >= 0; {
+				before := i == 0 || !isWord(ln[i-1])
+				after := i+len(f) == len(ln) || !isWord(ln[i+len(f)])
+				if before && after {
+					found = append(found, f)
+					break
+				}
+				j := strings.Index(ln[i+1:], f)
+				if j < 0 {
+					break
+				}
+				i += 1 + j
+			}
+		}
+		if len(found) != 1 {
+			continue
+		}
+		d := ""
+		for k := range details {
+			if strings.Contains(ln, k) && len(k) > len(d) {
+				d = k
+			}
+		}
+		if found[0] != "prefix_information_preferred_lifetime" && found[0] != "prefix_information_valid_lifetime" && found[0] != "route_information_lifetime" {
+			d = ""
+		}
+		out = append(out, found[0]+"|"+d)
+	}
+	return out
 }
